@@ -36,6 +36,9 @@
 class OPN2
 {
     friend class OPNMIDIplay;
+#ifdef OPNMIDI_VERIF
+    friend struct OPNMIDI_VerifAccess;
+#endif
 public:
     enum { PercussionTag = 1 << 15 };
 
